@@ -8,6 +8,7 @@ import DendroModel.Theory.C02NexusTr
 import DendroModel.Theory.C02NexusDoc
 import DendroModel.Theory.C02Nexml
 import DendroModel.Theory.C02NexmlNs
+import DendroModel.Theory.C02NexmlRt
 /-! C02 — property theorems about the model of `Model/C02.lean` (the definitions `drv_c02` executes).
 
 Every `theorem` directly inside `namespace DendroModel.C02` of this file is an obligation; helper lemmas live in
@@ -1074,6 +1075,60 @@ example : (nxWriteTree ["A".toList, "B".toList] 4 (some "t".toList, 2,
       .node none (some "x".toList) none [.node (some "A".toList) none (some "1.5".toList) [], .node (some "B".toList) none none []])).2 =
     4 + 1 + 2 * 3 :=
   (nexml_write_shape_partial _ _ _).2.2.2.1
+
+/-- NeXML reader ∘ writer on the TREE, for EVERY tree (any shape, unary nodes, polytomies, anonymous leaves, taxa on
+    internal nodes, lengths present or absent): the reader's tree construction `nxBuild` (`_NexmlTreeParser.build_tree`:
+    node lookup by id, taxon through the otu id, children = the targets of the `edge` elements whose source is the node, in
+    document order, each child hanging on its edge's length), run from the seed's id on exactly the `node` elements and the
+    non-root `edge` elements that the writer model `nxWriteTree` emits (with as much fuel as there are `node` elements, what
+    `nxReadTree` gives it), returns the tree that was written: same topology, same child order, same taxon on every node,
+    same node labels (an empty label is not written: `truthy`), same edge lengths (as texts), the seed hanging on the
+    length handed in (the `rootedge`'s).  Hypothesis: every taxon label of the tree resolves through the otus (`Resolves`:
+    it has an otu id that the reader's id ↦ label map sends back to it — `nexml_otus_roundtrip` gives that map).
+    `_partial`: NOT proved are the guards `nxReadTree` evaluates before building (no id twice, exactly one parentless node
+    and it is the seed, `root` flag and `rootedge` target agree) and the list level (`nxReadTrees`, counter threading); the
+    complete `nxRead (nxWrite …)` is compared on every generated case (op `nexml-rt`). -/
+theorem nexml_tree_build_roundtrip_partial (ns : List Str) (otus : List (Nat × Str)) (c : Nat) (x : XW) (ln : Option Str)
+    (hT : ∀ l ∈ Aux.txs x.2.2, Aux.Resolves (fun l => (findIdx l ns 0).map (· + 1)) otus l) :
+    nxBuild (nxWriteTree ns c x).1.nodes otus ((nxWriteTree ns c x).1.edges.filter (fun e => e.source.isSome))
+      (nxWriteTree ns c x).1.nodes.length (c + 1) ln = some (Aux.normNT x.2.2 ln) := by
+  obtain ⟨nm, r, t⟩ := x
+  have hlen := (nexml_write_shape_partial ns c (nm, r, t)).2.1
+  rw [hlen]
+  have hn := Aux.number_next t (c + 1)
+  let sz := (number t (c + 1)).2 - (c + 1)
+  have hedges : (nxWriteTree ns c (nm, r, t)).1.edges.filter (fun e => e.source.isSome) = Aux.kidEdges sz t (c + 1) := by
+    show (itEdges sz none (Aux.IN t (c + 1))).filter (fun e => e.source.isSome) = _
+    rw [Aux.itEdges_IN]
+    simp only [List.filter_cons, Option.isSome_none, Bool.false_eq_true, if_false]
+    rw [List.filter_eq_self]
+    intro e he
+    obtain ⟨j, hj, _⟩ := Aux.kidEdges_src sz t (c + 1) e he
+    simp [hj]
+  have hb := Aux.build_tree (fun l => (findIdx l ns 0).map (· + 1)) (if r == 2 then some (c + 1) else none) otus sz t (c + 1)
+    [] [] [] [] ln (Aux.sizeNT t) (by simp) (by simp) hT (Nat.le_refl _)
+  have hnodes : (nxWriteTree ns c (nm, r, t)).1.nodes =
+      itNodes (fun l => (findIdx l ns 0).map (· + 1)) (if r == 2 then some (c + 1) else none) (Aux.IN t (c + 1)) := rfl
+  rw [hedges, hnodes]
+  simp only [List.nil_append, List.append_nil] at hb
+  exact hb
+
+example : nxBuild (nxWriteTree ["A".toList, "B".toList] 4 (none, 2,
+      .node none (some "x".toList) none [.node (some "A".toList) none (some "1.5".toList) [], .node (some "B".toList) none none []])).1.nodes
+      [(1, "A".toList), (2, "B".toList)]
+      ((nxWriteTree ["A".toList, "B".toList] 4 (none, 2,
+      .node none (some "x".toList) none [.node (some "A".toList) none (some "1.5".toList) [], .node (some "B".toList) none none []])).1.edges.filter
+        (fun e => e.source.isSome)) 3 5 none =
+    some (.node none (some "x".toList) none [.node (some "A".toList) none (some "1.5".toList) [], .node (some "B".toList) none none []]) := by
+  have h := nexml_tree_build_roundtrip_partial ["A".toList, "B".toList] [(1, "A".toList), (2, "B".toList)] 4 (none, 2,
+      .node none (some "x".toList) none [.node (some "A".toList) none (some "1.5".toList) [], .node (some "B".toList) none none []]) none
+    (by
+      intro l hl
+      simp [Aux.txs, Aux.txsL] at hl
+      rcases hl with rfl | rfl
+      · exact ⟨1, by decide, by decide⟩
+      · exact ⟨2, by decide, by decide⟩)
+  simpa [Aux.normNT, Aux.normNTL, Aux.lenNT, truthy, nxWriteTree, number, numberL, itNodes, itNodesL] using h
 
 /-! ### non-vacuity: the hypotheses are satisfiable, on trees with awkward labels and anonymous leaves -/
 
